@@ -180,6 +180,12 @@ def work(prefix_hists, tier, open_ids, part_i=0, part_n=1):
                                 f"{b}: project returned {n} rows, expected {want} ({'one per distinct key incl. null' if gb else 'exactly one'}): {H.short(h)}",
                             )
                             continue
+                        if gb and sname == "none" and not set(gb) <= set(res[1]):
+                            part.violation(
+                                {"history": h, "data": data, "backend": b, "prefix_result": compare.brief(p), "result": compare.brief(res)},
+                                f"{b}: the result of a grouped project lacks its group key column(s) {gb}: {H.short(h)}",
+                            )
+                            continue
                         if gb and sname == "none":
                             kr = compare.project_cols(res, gb)
                             kd = ("ok", gb, sorted(set(kp[2]), key=repr))
